@@ -9,7 +9,8 @@ Property theorems only (helpers: `OxyModel/Proofs/CBreaker/Ramp.lean`).  Model: 
 
 A **recovery period** is described without reference to internal counters: the breaker `b` is tripped and
 its deadline has passed (`b.until_ ≤ t0`); the request arriving at `t0` starts the recovery; `rest` is any
-further history (arrivals in bursts, trickles, after idle gaps; completions with any outcome) during which
+further history (arrivals in bursts, trickles, after idle gaps; records and checks of completing
+requests in any interleaving, with any outcome) during which
 the breaker stays `recovering` (`AllRecovering`: no re-trip, not yet back to standby).  `passes` /
 `refusals` count the *observed* answers since recovery began (the arrival at `t0` included).  Every
 prefix of such a history is such a history, so each statement holds at every instant of the period.
@@ -165,12 +166,57 @@ theorem C12_first_after_is_standby (c : Cfg) (b : Brk) (t0 : Nat) (rest : List E
     have e1 : (step c (run c b (.arrive t0 :: rest)).1 (.arrive t')).1 = (arrive c _ t').2 := rfl
     rw [e1, ha]; exact p1
 
-/-- **re-trip**: if during the recovery a completion falls due for evaluation (`t' > lastCheck`) and the
+/-- **re-trip**: if during the recovery a `check` (the `checkAndSet` of some completing request, whatever
+    other requests recorded or did since that request's own `record`) falls due for evaluation
+    (`t' > lastCheck`) and the condition — in its standard reading over everything recorded so far, see
+    `C18` — is true, the
+    breaker trips again (`done true`, one more on-tripped effect, deadline `t' + fallbackDuration`) and
+    shields the backend anew: every request before the new deadline gets the fallback.  If the condition
+    is false the breaker keeps recovering. -/
+theorem C12_retrip (c : Cfg) (b : Brk) (t0 : Nat) (rest : List Ev) (t' : Nat) (orc : Oracle)
+    (hwt : c.cond.wellTyped = true)
+    (hs : b.state = .tripped) (hdue : b.until_ ≤ t0) (hsorted : Sorted (.arrive t0 :: rest))
+    (hrec : AllRecovering c b (.arrive t0 :: rest))
+    (hcheck : t' > (run c b (.arrive t0 :: rest)).1.lastCheck) :
+    (Denote (envOf (reader t' orc) (run c b (.arrive t0 :: rest)).1.met) c.cond →
+      (step c (run c b (.arrive t0 :: rest)).1 (.check t' orc)).2 = .done true ∧
+      (step c (run c b (.arrive t0 :: rest)).1 (.check t' orc)).1.state = .tripped ∧
+      (step c (run c b (.arrive t0 :: rest)).1 (.check t' orc)).1.until_ = t' + c.fallbackDur ∧
+      (step c (run c b (.arrive t0 :: rest)).1 (.check t' orc)).1.tripped = b.tripped + 1 ∧
+      ∀ mid, (∀ e ∈ mid, e.time < t' + c.fallbackDur) →
+        (run c (step c (run c b (.arrive t0 :: rest)).1 (.check t' orc)).1 mid).2 = mid.map shieldObs) ∧
+    (¬ Denote (envOf (reader t' orc) (run c b (.arrive t0 :: rest)).1.met) c.cond →
+      (step c (run c b (.arrive t0 :: rest)).1 (.check t' orc)).2 = .done false ∧
+      (step c (run c b (.arrive t0 :: rest)).1 (.check t' orc)).1.state = .recovering) := by
+  obtain ⟨p1, _, _, _, _, _, p7, _, _⟩ := period c b t0 rest hs hdue hsorted hrec
+  have hev := (eval_denote (reader_stable t' orc) (reader_wellFormed t' orc)
+    (run c b (.arrive t0 :: rest)).1.met c.cond _ hwt (Sim.refl _ _)).1
+  have hiff := check_true_iff c (run c b (.arrive t0 :: rest)).1 t' orc
+  have e1 : ∀ x, (step c x (.check t' orc)).1 = (checkAndSet c x t' orc).1 := fun _ => rfl
+  have e2 : ∀ x, (step c x (.check t' orc)).2 = .done (checkAndSet c x t' orc).2 := fun _ => rfl
+  constructor
+  · intro hd
+    have hflag : (checkAndSet c (run c b (.arrive t0 :: rest)).1 t' orc).2 = true :=
+      hiff.mpr ⟨hcheck, by rw [p1]; simp, hev.mpr hd⟩
+    obtain ⟨f1, f2, f3, _⟩ := check_true_fields c _ t' orc hflag
+    rw [e1, e2, hflag]
+    refine ⟨rfl, f1, f2, by rw [f3, p7], ?_⟩
+    intro mid hmid
+    exact (shield c mid _ f1 (fun e he => by rw [f2]; exact hmid e he)).2.2.2.2
+  · intro hd
+    have hflag : (checkAndSet c (run c b (.arrive t0 :: rest)).1 t' orc).2 = false := by
+      cases hf : (checkAndSet c (run c b (.arrive t0 :: rest)).1 t' orc).2 with
+      | false => rfl
+      | true => exact absurd (hev.mp (hiff.mp hf).2.2) hd
+    rw [e1, e2, hflag]
+    exact ⟨rfl, ((check_false c _ t' orc hflag).1).trans p1⟩
+
+/-- the same for a completion whose `record` and `check` run back to back (`complete`): if during the recovery a completion falls due for evaluation (`t' > lastCheck`) and the
     condition — in its standard reading over the metrics holding this response, see `C18` — is true, the
     breaker trips again (`done true`, one more on-tripped effect, deadline `t' + fallbackDuration`) and
     shields the backend anew: every request before the new deadline gets the fallback.  If the condition
     is false the breaker keeps recovering. -/
-theorem C12_retrip (c : Cfg) (b : Brk) (t0 : Nat) (rest : List Ev) (t' code : Nat) (orc : Oracle)
+theorem C12_retrip_fused (c : Cfg) (b : Brk) (t0 : Nat) (rest : List Ev) (t' code : Nat) (orc : Oracle)
     (hwt : c.cond.wellTyped = true)
     (hs : b.state = .tripped) (hdue : b.until_ ≤ t0) (hsorted : Sorted (.arrive t0 :: rest))
     (hrec : AllRecovering c b (.arrive t0 :: rest))
